@@ -3,7 +3,7 @@
    (iteration.Engine.backtrack_unary with a PartialJoin), or the target is transferred, or the call is refused. *)
 From DR Require Import Model.Reach Proofs.PredLaws Proofs.SliceLaws Proofs.SortLaws Proofs.SemLaws
   Proofs.Metadata Proofs.Simplify Proofs.FinishApply Proofs.CommuteLaws Proofs.SqlRules Proofs.BuildLaws
-  Proofs.BacktrackLaws Proofs.SqlBinary Proofs.JoinCommute Proofs.EqbLaws Proofs.EqbRefl Proofs.ReachLaws.
+  Proofs.BacktrackLaws Proofs.SqlBinary Proofs.SqlJoinId Proofs.JoinCommute Proofs.EqbLaws Proofs.EqbRefl Proofs.ReachLaws.
 From Coq Require Import Lia.
 Local Open Scope Z_scope.
 
@@ -34,34 +34,87 @@ Lemma op_columns_nonempty_inv cur tcols : op_wf cur tcols → op_columns cur tco
 Proof. destruct cur; simpl; intros H Hn; try exact Hn; try (destruct H; fail); set_solver. Qed.
 
 (* ---- Engine.append_unary with a PartialJoin whose operands are in one engine ---- *)
+Lemma identity_facts env x : wf_tree x → env_ok env x → is_join_identity x = true → columns x = ∅ ∧ sem_tree env x = [∅].
+Proof.
+  intros W E Hi. split; [|apply join_identity_content; auto].
+  unfold is_join_identity in Hi. apply andb_true_iff in Hi as [Hi _]. apply andb_true_iff in Hi as [Hi _].
+  apply bool_decide_eq_true in Hi. exact Hi.
+Qed.
+
+Lemma conform_cf_ok env : cf_ok env conform.
+Proof. intros t s W E C H. exact (conform_sound_gen env t s W E C H). Qed.
+
+(* every pair of operands, those without columns included: a join with the join identity hands back the other operand,
+   with the predicate applied as a selection unless it is trivially true *)
 Lemma append_join_e_sound env j f t s :
   wf_tree t → env_ok env t → tree_ok env t → wf_tree f → env_ok env f → tree_ok env f →
   engine_of f = engine_of t →
   j_max j = Some (j_min j) → j_min j ⊆ columns t → j_min j ⊆ columns f →
-  cols_p (j_pred j) ⊆ columns t ∪ columns f → columns t ≠ ∅ → columns f ≠ ∅ →
+  cols_p (j_pred j) ⊆ columns t ∪ columns f →
   append_unary_e (RJoin j f false) t = Ok s →
   sem_tree env s = sem_join (j_min j) (j_pred j) (sem_tree env t) (sem_tree env f) ∧
   columns s = columns t ∪ columns f ∧ wf_tree s ∧ env_ok env s ∧ tree_ok env s ∧ engine_of s = engine_of t.
 Proof.
-  intros Wt Et Ot Wf Ef Of He Hmax Hct Hcf Hp Nt Nf H.
+  intros Wt Et Ot Wf Ef Of He Hmax Hct Hcf Hp H.
   unfold append_unary_e in H. destruct (ekind_of (engine_of t)) eqn:Ek.
   - (* iteration engine: Join.apply *)
+    assert (Ekf : ekind_of (engine_of f) = KIter) by (rewrite He; exact Ek).
+    assert (Tok : ∀ x, engine_of x = engine_of t → tree_ok env x) by (intros x Hx; unfold tree_ok; rewrite Hx, Ek; exact I).
     unfold join_apply, join_begin in H.
     rewrite (bool_decide_eq_true_2 _ Hp) in H. cbn [negb] in H.
     unfold j_resolved in H. rewrite (bool_decide_eq_true_2 _ Hmax) in H.
     rewrite (bool_decide_eq_true_2 _ Hct), (bool_decide_eq_true_2 _ Hcf) in H. cbn [negb rbind] in H.
-    rewrite (not_identity_of_columns t Nt), (not_identity_of_columns f Nf), !andb_false_r in H. cbn [rbind] in H.
-    unfold append_binary_e in H. rewrite Ek in H. unfold join_finish in H.
-    rewrite (not_identity_of_columns t Nt), (not_identity_of_columns f Nf) in H.
-    destruct (negb (engine_eqb (engine_of t) (engine_of f))); [discriminate|].
-    destruct (negb (supp_p (ekind_of (engine_of t)) (j_pred j))); [discriminate|].
-    injection H as <-. cbn [sem_tree sem_bop columns wf_tree env_ok engine_of].
-    repeat split; auto. unfold tree_ok. cbn [engine_of]. rewrite Ek. exact I.
+    (* what a join with the identity on either side denotes *)
+    assert (IdL : is_join_identity t = true →
+                  j_min j = ∅ ∧ cols_p (j_pred j) ⊆ columns f ∧ columns t ∪ columns f = columns f ∧
+                  sem_join (j_min j) (j_pred j) (sem_tree env t) (sem_tree env f) = sem_sel (j_pred j) (sem_tree env f)).
+    { intros Hi. destruct (identity_facts env t Wt Et Hi) as [Ct St].
+      assert (Hc0 : j_min j = ∅) by set_solver.
+      split; [exact Hc0|]. split; [set_solver|]. split; [set_solver|]. rewrite St, Hc0. apply sem_join_identity_l. }
+    assert (IdR : is_join_identity f = true →
+                  j_min j = ∅ ∧ cols_p (j_pred j) ⊆ columns t ∧ columns t ∪ columns f = columns t ∧
+                  sem_join (j_min j) (j_pred j) (sem_tree env t) (sem_tree env f) = sem_sel (j_pred j) (sem_tree env t)).
+    { intros Hi. destruct (identity_facts env f Wf Ef Hi) as [Cf Sf].
+      assert (Hc0 : j_min j = ∅) by set_solver.
+      split; [exact Hc0|]. split; [set_solver|]. split; [set_solver|]. rewrite Sf, Hc0. apply sem_join_identity_r. }
+    assert (Sel : ∀ x, wf_tree x → env_ok env x → engine_of x = engine_of t → cols_p (j_pred j) ⊆ columns x →
+                  select_rows conform (j_pred j) x = Ok s →
+                  sem_tree env s = sem_sel (j_pred j) (sem_tree env x) ∧ columns s = columns x ∧ wf_tree s ∧ env_ok env s ∧
+                  tree_ok env s ∧ engine_of s = engine_of t).
+    { intros x Wx Ex Hx Hpx Hs.
+      destruct (select_rows_sound' env conform (j_pred j) x s (conform_cf_ok env) Wx Ex) as (A1 & A2 & _ & A4 & A5 & A6 & _); auto.
+      { rewrite Hx, Ek. discriminate. }
+      repeat split; auto; [apply Tok|]; congruence. }
+    destruct (bool_decide (as_trivial (j_pred j) = Some true)) eqn:Etr.
+    + apply bool_decide_eq_true in Etr.
+      destruct (is_join_identity t) eqn:It.
+      * (* BIgnore: the other operand itself *)
+        cbn [andb rbind] in H. unfold append_binary_e in H. rewrite Ek in H. injection H as <-.
+        destruct (IdL eq_refl) as (_ & Hpf & Hcu & Hsj). rewrite Hsj, Hcu.
+        split; [symmetry; eapply sem_sel_true; eauto; apply sem_tree_dom; auto|]. repeat split; auto.
+      * destruct (is_join_identity f) eqn:If_.
+        -- cbn [andb rbind] in H. unfold append_binary_e in H. rewrite Ek in H. injection H as <-.
+           destruct (IdR eq_refl) as (_ & Hpt & Hcu & Hsj). rewrite Hsj, Hcu.
+           split; [symmetry; eapply sem_sel_true; eauto; apply sem_tree_dom; auto|]. repeat split; auto.
+        -- cbn [andb rbind] in H. unfold append_binary_e in H. rewrite Ek in H. unfold join_finish in H. rewrite It, If_ in H.
+           destruct (negb (engine_eqb (engine_of t) (engine_of f))); [discriminate|].
+           destruct (negb (supp_p (ekind_of (engine_of t)) (j_pred j))); [discriminate|].
+           injection H as <-. cbn [sem_tree sem_bop columns wf_tree env_ok engine_of].
+           repeat split; auto.
+    + cbn [andb rbind] in H. unfold append_binary_e in H. rewrite Ek in H. unfold join_finish in H.
+      destruct (is_join_identity t) eqn:It.
+      * destruct (IdL eq_refl) as (_ & Hpf & Hcu & Hsj). rewrite Hsj, Hcu. apply Sel; auto.
+      * destruct (is_join_identity f) eqn:If_.
+        -- destruct (IdR eq_refl) as (_ & Hpt & Hcu & Hsj). rewrite Hsj, Hcu. apply Sel; auto.
+        -- destruct (negb (engine_eqb (engine_of t) (engine_of f))); [discriminate|].
+           destruct (negb (supp_p (ekind_of (engine_of t)) (j_pred j))); [discriminate|].
+           injection H as <-. cbn [sem_tree sem_bop columns wf_tree env_ok engine_of].
+           repeat split; auto.
   - (* SQL engine: both operands are conformed, then the join rule of _append_binary_to_select *)
     assert (Gt : good_all env t) by (unfold tree_ok in Ot; rewrite Ek in Ot; exact Ot).
     assert (Gf : good_all env f) by (unfold tree_ok in Of; rewrite He, Ek in Of; exact Of).
     rewrite (good_all_conform env t Gt), (good_all_conform env f Gf) in H. cbn [rbind] in H.
-    destruct (append_join_sound env _ (j_pred j) (j_min j) t f s Gt Gf (eq_sym He) Hct Hcf Hp Nt Nf H) as (G & S & C & E).
+    destruct (engine_join_sound env (j_pred j) (j_min j) t f s Gt Gf (eq_sym He) Hct Hcf Hp H) as (G & S & C & E).
     destruct (good_all_wf env s G) as [W1 W2].
     repeat split; auto. unfold tree_ok. rewrite E, Ek. exact G.
 Qed.
@@ -155,7 +208,7 @@ Section JoinBacktrack.
         destruct (append_unary_e (RJoin j f false) t1) as [a|e] eqn:Ea; cbn [rbind] in H; [|discriminate].
         injection H as <- <-.
         assert (Hct : j_min j ⊆ columns t1) by (unfold pjoin_required in Hreq; set_solver).
-        destruct (append_join_e_sound env j f t1 a Hwf1 Henv (spine_tree_ok env d t1 Hsp) Wf Ef Of (eq_sym Ee) Hmax Hct Hcf Hp Nt Nf Ea)
+        destruct (append_join_e_sound env j f t1 a Hwf1 Henv (spine_tree_ok env d t1 Hsp) Wf Ef Of (eq_sym Ee) Hmax Hct Hcf Hp Ea)
           as (S1 & S2 & S3 & S4 & S5 & S6).
         unfold btj_spec. cbn [wf_tree env_ok engine_of sem_tree columns]. repeat split; auto. congruence.
       + destruct (ekind_of (engine_of t1)) eqn:Ek.
@@ -203,7 +256,7 @@ Proof.
   cbn [o_pref default from_option id o_backtrack o_transfer o_require] in H.
   destruct (engine_eqb (engine_of f) (engine_of t)) eqn:Ee.
   { apply engine_eqb_eq in Ee.
-    destruct (append_join_e_sound env j f t t1 Wt Et Ot Wf Ef Of Ee Hmax Hct Hcf Hp Nt Nf H) as (S1 & S2 & S3 & S4 & S5 & S6).
+    destruct (append_join_e_sound env j f t t1 Wt Et Ot Wf Ef Of Ee Hmax Hct Hcf Hp H) as (S1 & S2 & S3 & S4 & S5 & S6).
     repeat split; auto. }
   (* the backtracking attempt *)
   assert (Hbt : ∃ res done,
@@ -230,7 +283,7 @@ Proof.
     assert (Hct2 : j_min j ⊆ columns res2) by (rewrite T2; exact Hct).
     assert (Hp2 : cols_p (j_pred j) ⊆ columns res2 ∪ columns f) by (rewrite T2; exact Hp).
     assert (Nt2 : columns res2 ≠ ∅) by (rewrite T2; exact Nt).
-    destruct (append_join_e_sound env j f res2 t1 T3 T4 T5 Wf Ef Of (eq_sym T6) Hmax Hct2 Hcf Hp2 Nt2 Nf H) as (S1 & S2 & S3 & S4 & S5 & S6).
+    destruct (append_join_e_sound env j f res2 t1 T3 T4 T5 Wf Ef Of (eq_sym T6) Hmax Hct2 Hcf Hp2 H) as (S1 & S2 & S3 & S4 & S5 & S6).
     split; [rewrite S1, T1; reflexivity|]. split; [rewrite S2, T2; reflexivity|]. split; [exact S3|]. split; [exact S4|].
     right. split; [reflexivity|congruence].
   - (* no transfer: operands in different engines are refused *)
@@ -247,4 +300,63 @@ Proof.
     { destruct (engine_eqb (engine_of t) (engine_of f)) eqn:E; [|reflexivity].
       apply engine_eqb_eq in E. rewrite E, engine_eqb_refl in Ee. discriminate. }
     rewrite Ee' in H. discriminate.
+Qed.
+
+(* Relation.join of two relations of one engine: no side condition beyond well-formedness — operands without columns
+   (the join identity among them) included, in an iteration engine and in an SQL engine alike *)
+Theorem apply_full_join_same_engine env p f t jb jt t1 :
+  wf_tree t → env_ok env t → tree_ok env t → wf_tree f → env_ok env f → tree_ok env f →
+  engine_of f = engine_of t →
+  apply_full (RJoin (JSpec p ∅ None) f false) t (Opts None jb jt false) = Ok t1 →
+  sem_tree env t1 = sem_join (natural_common (columns t) (columns f)) p (sem_tree env t) (sem_tree env f) ∧
+  columns t1 = columns t ∪ columns f ∧ wf_tree t1 ∧ env_ok env t1 ∧ tree_ok env t1 ∧ engine_of t1 = engine_of t.
+Proof.
+  intros Wt Et Ot Wf Ef Of He H.
+  set (c := natural_common (columns t) (columns f)) in *.
+  unfold apply_full, apply_with, req_begin, common_columns, j_resolved in H. cbn [j_max j_min j_pred] in H.
+  rewrite bool_decide_eq_false_2 in H by discriminate.
+  assert (Ec : filter (λ k, is_key k = true) (columns f ∩ columns t) = c).
+  { unfold c, natural_common. f_equal. set_solver. }
+  rewrite Ec in H.
+  rewrite (bool_decide_eq_true_2 (∅ ⊆ c)) in H by set_solver. cbn [rbind] in H.
+  set (j := JSpec p c (Some c)) in *.
+  destruct (bool_decide (pjoin_required j f ⊆ columns t)) eqn:Ereq; cbn [negb rbind] in H; [|discriminate].
+  apply bool_decide_eq_true in Ereq.
+  assert (Hmax : j_max j = Some (j_min j)) by reflexivity.
+  assert (Hcf : j_min j ⊆ columns f) by (unfold j, c, natural_common; cbn [j_min]; intros k Hk; apply elem_of_filter in Hk; set_solver).
+  assert (Hct : j_min j ⊆ columns t) by (unfold pjoin_required in Ereq; set_solver).
+  assert (Hp : cols_p (j_pred j) ⊆ columns t ∪ columns f) by (apply subset_union_diff; unfold pjoin_required in Ereq; set_solver).
+  cbn [o_pref default from_option id o_backtrack o_transfer o_require] in H.
+  rewrite He, engine_eqb_refl in H.
+  exact (append_join_e_sound env j f t t1 Wt Et Ot Wf Ef Of He Hmax Hct Hcf Hp H).
+Qed.
+
+(* PartialJoin._begin_apply always hands on a join whose common columns are resolved (minimum = maximum), whatever
+   minimum / maximum the caller gave: they hold the minimum, lie within the maximum, and are columns of both operands *)
+Theorem req_begin_join_resolved j f lhs t pref r' e :
+  j_min j ⊆ columns f →
+  req_begin (RJoin j f lhs) t pref = Ok (r', e) →
+  ∃ c, r' = RJoin (JSpec (j_pred j) c (Some c)) f lhs ∧ j_resolved (JSpec (j_pred j) c (Some c)) = true ∧
+       j_min j ⊆ c ∧ c ⊆ columns f ∧ c ⊆ columns t ∧ (∀ m, j_max j = Some m → c ⊆ m) ∧
+       cols_p (j_pred j) ⊆ columns t ∪ columns f.
+Proof.
+  intros Hf H. cbn [req_begin] in H.
+  destruct (common_columns j (columns f) (columns t)) as [c|] eqn:Ec; cbn [rbind] in H; [|discriminate].
+  destruct (bool_decide (pjoin_required (JSpec (j_pred j) c (Some c)) f ⊆ columns t)) eqn:Er; cbn [negb] in H; [|discriminate].
+  injection H as <- <-. apply bool_decide_eq_true in Er. unfold pjoin_required in Er. cbn [j_pred j_min] in Er.
+  exists c. split; [reflexivity|]. split; [apply bool_decide_eq_true; reflexivity|].
+  unfold common_columns in Ec. destruct (j_resolved j) eqn:Ej.
+  - injection Ec as <-. unfold j_resolved in Ej. apply bool_decide_eq_true in Ej.
+    split; [reflexivity|]. split; [exact Hf|]. split; [set_solver|]. split; [intros m Hm; rewrite Ej in Hm; injection Hm as <-; reflexivity|].
+    apply subset_union_diff. set_solver.
+  - destruct (bool_decide (j_min j ⊆ _)) eqn:Em; [|discriminate]. injection Ec as <-. apply bool_decide_eq_true in Em.
+    split; [exact Em|].
+    assert (Hk : ∀ k, k ∈ filter (λ x, is_key x = true) (columns f ∩ columns t) → k ∈ columns f ∧ k ∈ columns t).
+    { intros k Hk. apply elem_of_filter in Hk as [_ Hk]. apply elem_of_intersection in Hk. exact Hk. }
+    destruct (j_max j) as [m|].
+    + split; [intros k Hk0; apply elem_of_intersection in Hk0 as [Hk0 _]; apply (Hk k Hk0)|].
+      split; [intros k Hk0; apply elem_of_intersection in Hk0 as [Hk0 _]; apply (Hk k Hk0)|].
+      split; [intros m' Hm; injection Hm as <-; set_solver|]. apply subset_union_diff. set_solver.
+    + split; [intros k Hk0; apply (Hk k Hk0)|]. split; [intros k Hk0; apply (Hk k Hk0)|].
+      split; [discriminate|]. apply subset_union_diff. set_solver.
 Qed.
